@@ -231,6 +231,7 @@ pub struct World {
     // the checkpoint store (unit checkpoint): None = no checkpoint file
     pub ghost cp_file: Option<(Seq<char>, Option<Map<Seq<char>, String>>)>,
     // lock (unit cli)
+    pub ghost stdout_bytes: Seq<u8>,             // bytes written to the process's standard output
     pub ghost lock_held: bool,
     pub ghost effects: nat,                      // number of mutating application entry points entered
 }
@@ -317,8 +318,8 @@ pub mod tokio {
         impl<R> BufReader<R> {
             // AsyncBufReadExt::read_until: a completed read appends the bytes it consumed to buf; Ok(0) only at end of stream
             #[verifier::external_body]
-            pub async fn read_until(&mut self, d: u8, buf: &mut Vec<u8>, Tracked(w): Tracked<&mut World>) -> (res: Result<usize, std::io::Error>)
-                ensures *final(w) == *old(w),
+            pub async fn read_until(&mut self, d: u8, buf: &mut Vec<u8>) -> (res: Result<usize, std::io::Error>)
+                ensures
                     final(buf)@ == old(buf)@ + read_chunk(old(buf)@, final(buf)@),
                     final(self).consumed == old(self).consumed + read_chunk(old(buf)@, final(buf)@),
                     old(self).rest == read_chunk(old(buf)@, final(buf)@) + final(self).rest,
@@ -326,8 +327,8 @@ pub mod tokio {
             { unimplemented!() }
             // the same future polled and then dropped by select!: any prefix may already have been moved into buf (tokio docs: not cancel-safe w.r.t. buf)
             #[verifier::external_body]
-            pub fn read_until_dropped(&mut self, d: u8, buf: &mut Vec<u8>, Tracked(w): Tracked<&mut World>)
-                ensures *final(w) == *old(w),
+            pub fn read_until_dropped(&mut self, d: u8, buf: &mut Vec<u8>)
+                ensures
                     final(buf)@ == old(buf)@ + read_chunk(old(buf)@, final(buf)@),
                     final(self).consumed == old(self).consumed + read_chunk(old(buf)@, final(buf)@),
                     old(self).rest == read_chunk(old(buf)@, final(buf)@) + final(self).rest,
@@ -400,7 +401,7 @@ impl path::PathBuf {
 pub mod fs {
     use vstd::prelude::*;
     use super::*;
-    pub struct File { pub ghost p: Seq<char> }
+    pub struct File { pub ghost p: Seq<char>, pub ghost content: Seq<u8> }   // content: what the file held when it was opened for reading
     pub struct OpenOptions { pub ghost rd: bool, pub ghost wr: bool, pub ghost tr: bool, pub ghost cr: bool, pub ghost cn: bool }
     impl OpenOptions {
         #[verifier::external_body] pub fn new() -> (r: Self) ensures !r.rd && !r.wr && !r.tr && !r.cr && !r.cn { unimplemented!() }
@@ -441,6 +442,21 @@ pub mod fs {
             r matches Ok(v) ==> old(w).fs.dom().contains(p.pview()) && v@ == old(w).fs[p.pview()] && final(w).io_faults == old(w).io_faults,
             (r is Err && final(w).io_faults == old(w).io_faults) ==> !old(w).fs.dom().contains(p.pview()),
     { unimplemented!() }
+    // remove_dir_all: everything under the directory disappears; fails without an environmental fault only when there is nothing there
+    pub uninterp spec fn under(dir: Seq<char>, p: Seq<char>) -> bool;   // p names something inside directory dir (whole components)
+    #[verifier::external_body] pub fn remove_dir_all<P: PathLike + ?Sized>(p: &P, Tracked(w): Tracked<&mut World>) -> (r: Result<(), std::io::Error>)
+        ensures
+            final(w).ptr == old(w).ptr, final(w).last == old(w).last, final(w).ptr_new == old(w).ptr_new, final(w).io_faults >= old(w).io_faults,
+            forall|q: Seq<char>| #![trigger under(p.pview(), q)] !under(p.pview(), q) ==> (final(w).fs.dom().contains(q) == old(w).fs.dom().contains(q) && final(w).fs[q] == old(w).fs[q]),
+            r is Ok ==> final(w).io_faults == old(w).io_faults && forall|q: Seq<char>| #![trigger under(p.pview(), q)] under(p.pview(), q) ==> !final(w).fs.dom().contains(q),
+            r is Err ==> final(w).fs == old(w).fs,
+            (r is Err && final(w).io_faults == old(w).io_faults) ==> forall|q: Seq<char>| #![trigger under(p.pview(), q)] under(p.pview(), q) ==> !old(w).fs.dom().contains(q),
+    { unimplemented!() }
+    // create_dir_all: directories are not files; the file map is unchanged
+    #[verifier::external_body] pub fn create_dir_all<P: PathLike + ?Sized>(p: &P, Tracked(w): Tracked<&mut World>) -> (r: Result<(), std::io::Error>)
+        ensures final(w).fs == old(w).fs, final(w).ptr == old(w).ptr, final(w).last == old(w).last, final(w).ptr_new == old(w).ptr_new, final(w).io_faults >= old(w).io_faults,
+            r is Err ==> final(w).io_faults > old(w).io_faults,
+    { unimplemented!() }
     // rename(2): atomic replacement
     #[verifier::external_body] pub fn rename<P: PathLike, Q: PathLike>(from: &P, to: &Q, Tracked(w): Tracked<&mut World>) -> (r: Result<(), std::io::Error>)
         requires recoverable(*old(w)),
@@ -460,8 +476,8 @@ pub uninterp spec fn path_exists_spec(p: Seq<char>, fs: Map<Seq<char>, Seq<u8>>)
 impl fs::File {
     // File::open(p): read-only open; fails without an environmental fault exactly when there is no file
     #[verifier::external_body] pub fn open<P: PathLike + ?Sized>(p: &P, Tracked(w): Tracked<&mut World>) -> (r: Result<fs::File, std::io::Error>)
-        ensures final(w).fs == old(w).fs, final(w).io_faults >= old(w).io_faults,
-            r matches Ok(f) ==> f.p == p.pview() && old(w).fs.dom().contains(p.pview()) && final(w).io_faults == old(w).io_faults,
+        ensures final(w).fs == old(w).fs, final(w).io_faults >= old(w).io_faults, final(w).stdout_bytes == old(w).stdout_bytes,
+            r matches Ok(f) ==> f.p == p.pview() && old(w).fs.dom().contains(p.pview()) && f.content == old(w).fs[p.pview()] && final(w).io_faults == old(w).io_faults,
             (r is Err && final(w).io_faults == old(w).io_faults) ==> !old(w).fs.dom().contains(p.pview()),
     { unimplemented!() }
     // std::io::Read::read_to_end on a freshly opened file: appends the whole content
@@ -472,6 +488,9 @@ impl fs::File {
     { unimplemented!() }
 }
 impl path::Path {
+    // Path::try_exists: like exists, but an environmental failure is an error
+    #[verifier::external_body] pub fn try_exists(&self, Tracked(w): Tracked<&mut World>) -> (r: Result<bool, std::io::Error>)
+        ensures *final(w) == *old(w) || final(w).io_faults > old(w).io_faults, final(w).fs == old(w).fs, r matches Ok(b) ==> b == old(w).fs.dom().contains(self@) && *final(w) == *old(w) { unimplemented!() }
     #[verifier::external_body] pub fn exists(&self, Tracked(w): Tracked<&mut World>) -> (r: bool)
         ensures *final(w) == *old(w), r == old(w).fs.dom().contains(self@) { unimplemented!() }
 }
@@ -574,3 +593,39 @@ impl path::Path {
 }
 // R12 target for `stem == name` (OsStr == str)
 #[verifier::external_body] pub fn os_eq(a: &OsStr, b: &str) -> (r: bool) ensures r == (a.s == b@) { unimplemented!() }
+
+// ---------------- synchronous buffered reading, zstd decoding, stdout (log show) ----------------
+pub uninterp spec fn zstd_dec(b: Seq<u8>) -> Seq<u8>;     // zstd: the decoded stream is a function of the file's bytes (round trip ASSUMED)
+pub trait ByteSource { spec fn source_bytes(&self) -> Seq<u8>; }
+impl ByteSource for fs::File { open spec fn source_bytes(&self) -> Seq<u8> { self.content } }
+pub mod iox {
+    use vstd::prelude::*;
+    use super::*;
+    pub struct BufReader<T> { pub ghost consumed: Seq<u8>, pub ghost rest: Seq<u8>, pub t: T }
+    impl<T: ByteSource> BufReader<T> {
+        #[verifier::external_body] pub fn new(t: T) -> (r: BufReader<T>) ensures r.consumed == Seq::<u8>::empty(), r.rest == t.source_bytes() { unimplemented!() }
+        // std::io::BufRead::read_until: appends the bytes it consumed (up to and including the delimiter, or to the end); Ok(0) only at the end
+        #[verifier::external_body] pub fn read_until(&mut self, d: u8, buf: &mut Vec<u8>) -> (res: Result<usize, std::io::Error>)
+            ensures
+                final(buf)@ == old(buf)@ + read_chunk(old(buf)@, final(buf)@),
+                final(self).consumed == old(self).consumed + read_chunk(old(buf)@, final(buf)@),
+                old(self).rest == read_chunk(old(buf)@, final(buf)@) + final(self).rest,
+                res matches Ok(k) ==> read_chunk(old(buf)@, final(buf)@).len() == k && (k == 0 ==> old(self).rest.len() == 0),
+        { unimplemented!() }
+    }
+    pub struct Stdout { pub x: u8 }
+    impl Stdout {
+        #[verifier::external_body] pub fn write_all(&mut self, b: &[u8], Tracked(w): Tracked<&mut World>) -> (r: Result<(), std::io::Error>)
+            ensures r is Ok ==> final(w).stdout_bytes == old(w).stdout_bytes + b@, final(w).fs == old(w).fs { unimplemented!() }
+    }
+}
+impl<T: ByteSource> ByteSource for iox::BufReader<T> { open spec fn source_bytes(&self) -> Seq<u8> { self.rest } }
+pub mod zstd { pub mod stream { pub mod read {
+    use vstd::prelude::*;
+    use super::super::super::*;
+    pub struct Decoder<T> { pub ghost decoded: Seq<u8>, pub t: T }
+    impl<T: ByteSource> Decoder<T> {
+        #[verifier::external_body] pub fn new(t: T) -> (r: Result<Decoder<T>, std::io::Error>) ensures r matches Ok(d) ==> d.decoded == zstd_dec(t.source_bytes()) { unimplemented!() }
+    }
+} } }
+impl<T> ByteSource for zstd::stream::read::Decoder<T> { open spec fn source_bytes(&self) -> Seq<u8> { self.decoded } }
